@@ -155,6 +155,7 @@ func (f *DefaultFanController) Run(ctx context.Context) error {
 			ui.Warning("Fan '%s' has not yet been analyzed, starting initialization sequence...", fan.GetId())
 			err = f.RunInitializationSequence()
 			if err != nil {
+				simhook.Yield("ctl.abort", fan.GetId())
 				f.restorePwmEnabled()
 				return err
 			}
